@@ -54,6 +54,112 @@ example : routeKw .v2 .conType .arr "minItems" = some "min_length" ∧
     routeKw .v1 .field .arr "minItems" = some "min_items" ∧
     routeKw .v1 .conType .str "pattern" = some "regex" := by decide +kernel
 
+/-! ### Keywords at nested places
+
+`reportBounds st ty c` / `reportItems st c` (Dcg/Model/Report.lean): the keywords pydantic reports — through
+the authored table `reported` — for the constraints `c`; `placeCons t`: the constraints found at a place of
+the IR (arguments of the constrained type, of the root models around it); `itemTy` / `valTy` / `altTys`:
+the place of the items of a list, of the values of a dict, of the alternatives of a union. -/
+
+open Dcg.Sem Dcg.Model.Translate Dcg.Model.Report Dcg.Proofs.Sem in
+/-- ARRAY ITEMS, at any depth of the enclosing place `ctx` (document, definition, member type, item, union
+alternative): a scalar item schema `{type, bounds}` is reported with exactly its keywords and values — for both
+styles and every routing. (`scalarOK`: only the keywords of the type, integer bounds written as integers —
+excludes D10.) No further hypothesis: an item is never in the D11 region. -/
+theorem keyword_roundtrip_array_item (st : Style) (o : Opts) (ctx : Ctx) (ty : STy) (n : Bool) (b : Bounds)
+    (mn mx : Option Nat) (hok : scalarOK ty b = true) :
+    reportBounds st ty (placeCons (itemTy (tr st o ctx (.array (.scalar ty n b) mn mx)))) = b := by
+  have hit : itemTy (tr st o ctx (.array (.scalar ty n b) mn mx)) =
+      tr st o (.item (mn.isSome || mx.isSome)) (.scalar ty n b) := by
+    cases ctx <;> simp only [tr] <;> try split
+    all_goals simp only [itemTy]
+  rw [hit]
+  exact scalar_place_report st o (C03.tableOK st) _ ty n b hok (by simp [strictSafe])
+
+open Dcg.Sem Dcg.Model.Translate Dcg.Model.Report Dcg.Proofs.Sem in
+/-- UNION ALTERNATIVES: a scalar alternative of anyOf / oneOf is reported with its keywords and values. -/
+theorem keyword_roundtrip_union_alternative (st : Style) (o : Opts) (ctx : Ctx) (ty : STy) (n : Bool)
+    (b : Bounds) (before after : List Schema) (hok : scalarOK ty b = true) :
+    ∃ t ∈ altTys (tr st o ctx (.anyOf (before ++ .scalar ty n b :: after))),
+      t = tr st o (.item false) (.scalar ty n b) ∧ reportBounds st ty (placeCons t) = b := by
+  refine ⟨tr st o (.item false) (.scalar ty n b), ?_, rfl,
+    scalar_place_report st o (C03.tableOK st) _ ty n b hok (by simp [strictSafe])⟩
+  have hmem : ∀ L : List Schema, altTys (tr st o ctx (.anyOf L)) = L.map (altTy st o) := by
+    intro L; simp only [tr, altTys, trAlts_eq_map]
+  rw [hmem]
+  refine List.mem_map.mpr ⟨.scalar ty n b, by simp, ?_⟩
+  simp only [altTy, Schema.isDisc, Bool.false_eq_true, if_false]
+
+open Dcg.Sem Dcg.Model.Translate Dcg.Model.Report Dcg.Proofs.Sem in
+/-- DICT VALUES (`additionalProperties: <scalar schema>`), PARTIAL: the keywords are reported unless
+`field_constraints` is on and the value schema carries a constraint — the region of known finding D11,
+stated as the explicit hypothesis `hsafe`. -/
+theorem keyword_roundtrip_dict_value_partial (st : Style) (o : Opts) (ctx : Ctx) (ty : STy) (n : Bool)
+    (b : Bounds) (hok : scalarOK ty b = true)
+    (hsafe : o.fieldConstraints = false ∨ boundsHasConstraint b = false) :
+    reportBounds st ty (placeCons (valTy (tr st o ctx (.dict (.scalar ty n b))))) = b := by
+  have hv : valTy (tr st o ctx (.dict (.scalar ty n b))) = tr st o .plain (.scalar ty n b) := by
+    simp [tr, valTy, Schema.isDisc]
+  rw [hv]
+  refine scalar_place_report st o (C03.tableOK st) _ ty n b hok ?_
+  rcases hsafe with h | h <;> simp [strictSafe, h]
+
+open Dcg.Sem Dcg.Model.Translate Dcg.Model.Report Dcg.Proofs.Sem in
+/-- WITNESS (D11): under `field_constraints` the value schema `{integer, minimum 0}` of `additionalProperties`
+is reported without `minimum` (`Dict[str, int]`) -/
+theorem keyword_lost_dict_value_D11 :
+    (reportBounds .v2 .integer (placeCons (valTy (tr .v2 { fieldConstraints := true } .plain
+      (.dict (.scalar .integer false { minimum := some ⟨0, 0⟩ })))))).minimum = none ∧
+    (reportBounds .v2 .integer (placeCons (valTy (tr .v2 {} .plain
+      (.dict (.scalar .integer false { minimum := some ⟨0, 0⟩ })))))).minimum = some ⟨0, 0⟩ := by
+  decide +kernel
+
+open Dcg.Sem Dcg.Model.Translate Dcg.Model.Report Dcg.Proofs.Sem in
+/-- ITEM COUNTS OF A NESTED ARRAY (an array that is the item of an array), PARTIAL: reported with
+`field_constraints` (root model with `Field(min_length=…)`), or when there are none — the region of known
+finding D31 is the explicit hypothesis `hsafe`. -/
+theorem keyword_roundtrip_nested_array_partial (st : Style) (o : Opts) (ctx : Ctx) (items : Schema)
+    (mn mx omn omx : Option Nat)
+    (hsafe : o.fieldConstraints = true ∨ (mn.isSome || mx.isSome) = false)
+    (hinner : strictSafe st o.fieldConstraints (.item (mn.isSome || mx.isSome)) items = true) :
+    reportItems st (placeCons (itemTy (tr st o ctx (.array (.array items mn mx) omn omx)))) = (mn, mx) := by
+  have hit : itemTy (tr st o ctx (.array (.array items mn mx) omn omx)) =
+      tr st o (.item (omn.isSome || omx.isSome)) (.array items mn mx) := by
+    cases ctx <;> simp only [tr] <;> try split
+    all_goals simp only [itemTy]
+  rw [hit]
+  refine array_place_report st o (C03.tableOK st) _ items mn mx ?_
+  rcases hsafe with h | h
+  · rw [h] at hinner; simp [strictSafe, h, hinner]
+  · rw [h] at hinner; simp [strictSafe, h, hinner]
+
+open Dcg.Sem Dcg.Model.Translate Dcg.Model.Report Dcg.Proofs.Sem in
+/-- …members (the common case) carry them in every routing -/
+theorem keyword_roundtrip_member (st : Style) (o : Opts) (ty : STy) (n : Bool) (b : Bounds)
+    (items : Schema) (mn mx : Option Nat) (hok : scalarOK ty b = true) :
+    reportBounds st ty (mergeCons (fieldCons st o (.scalar ty n b)) (placeCons (tr st o .plain (.scalar ty n b)))) = b ∧
+    reportItems st (fieldCons st o (.array items mn mx)) = (mn, mx) :=
+  ⟨scalar_member_report st o (C03.tableOK st) ty n b hok, array_member_report st o (C03.tableOK st) items mn mx⟩
+
+open Dcg.Sem Dcg.Model.Translate Dcg.Model.Report Dcg.Proofs.Sem in
+/-- WITNESS (D31): `items: {"type":"array","minItems":2}` inside an array: without `field_constraints` nothing
+is reported for the inner array (`List[List[int]]`); with it `minItems: 2` is. -/
+theorem keyword_lost_nested_array_D31 :
+    reportItems .v2 (placeCons (itemTy (tr .v2 {} .plain
+      (.array (.array (.scalar .integer false {}) (some 2) none) none none)))) = (none, none) ∧
+    reportItems .v2 (placeCons (itemTy (tr .v2 { fieldConstraints := true } .plain
+      (.array (.array (.scalar .integer false {}) (some 2) none) none none)))) = (some 2, none) := by
+  decide +kernel
+
+open Dcg.Sem Dcg.Model.Translate Dcg.Model.Report in
+/-- non-vacuity: a bounded integer as array item, union alternative and dict value; the v1 string keyword `regex` -/
+example : scalarOK .integer { minimum := some ⟨1, 0⟩, exclMax := some ⟨9, 0⟩ } = true ∧
+    (reportBounds .v1 .integer (placeCons (itemTy (tr .v1 { fieldConstraints := true } .top
+      (.array (.scalar .integer true { minimum := some ⟨1, 0⟩, exclMax := some ⟨9, 0⟩ }) (some 1) none)))))
+      = { minimum := some ⟨1, 0⟩, exclMax := some ⟨9, 0⟩ } ∧
+    (reportBounds .v1 .string (placeCons (tr .v1 {} (.item false) (.scalar .string false { pattern := some "^q".toList })))).pattern
+      = some "^q".toList := by decide +kernel
+
 /-! ### Values -/
 
 /-- FULL STRENGTH (values) would say `castValue r fam pk v` is numerically `v`. It is FALSE for an
@@ -197,6 +303,63 @@ theorem required_handling (st : Style) (o : Opts) (req : List (List Char))
   rw [trProps_eq_map]
   refine List.mem_map.mpr ⟨p, hp, ?_⟩
   simp [hr, hc]
+
+/-- `required` at the allOf level (a property-less member `{"required": […]}` of `allOf`), in terms of
+ORIGINAL names: for EVERY field-name resolver `nm` — whatever Python name a member gets (`first-name` ↦
+`first_name`, `class` ↦ `class_`, snake-casing, …) — a member whose JSON name is listed becomes a
+required field of the class; it keeps its Python name and its JSON name. Unconditional: also a
+`const` member of v1-style output (the mark is applied after the field was built). -/
+theorem allOf_required_handling (st : Style) (o : Opts) (nm : List Char → List Char)
+    (req xreq : List (List Char)) (props : List (List Char × Schema)) (p : List Char × Schema)
+    (hp : p ∈ props) (hr : p.1 ∈ xreq) :
+    ∃ f ∈ markRequired xreq (parseFields st o nm req props),
+      f.name = nm p.1 ∧ f.originalName = some p.1 ∧ f.required = true ∧
+      f.cons = fieldCons st o p.2 ∧ f.ty = tr st o .plain p.2 := by
+  refine ⟨_, List.mem_map.mpr ⟨_, List.mem_map.mpr ⟨p, hp, rfl⟩, rfl⟩, ?_⟩
+  simp [PField.key, hr]
+
+/-- …and that is what stage 1 (`tr`, keyed by JSON name) says: the own fields of the class generated
+for `allOf[refs…, {properties: props, required: req}, {required: xreq}]` are the fields above with the
+Python names forgotten, for every resolver; hence the member is a required field of the IR. -/
+theorem allOf_required_in_ir (st : Style) (o : Opts) (nm : List Char → List Char)
+    (refs req xreq : List (List Char)) (props : List (List Char × Schema)) (p : List Char × Schema)
+    (hp : p ∈ props) (hr : p.1 ∈ xreq) :
+    tr st o .top (.allOf refs props req xreq) =
+      .derived refs ((markRequired xreq (parseFields st o nm req props)).map PField.toIR) .unset ∧
+    (p.1, true, fieldCons st o p.2, tr st o .plain p.2) ∈ markReq xreq (trProps st o req props) := by
+  refine ⟨by simp only [tr, allOf_fields_refine], ?_⟩
+  rw [markReq_trProps]
+  refine List.mem_map.mpr ⟨p, hp, ?_⟩
+  simp [hr]
+
+/-- the resolver of the non-vacuity example and of the witness below: `first-name` ↦ `first_name` -/
+def demoNm (n : List Char) : List Char := n.map (fun c => if c == '-' then '_' else c)
+
+/-- non-vacuity: a member that IS renamed, named by an allOf-level `required` -/
+example : demoNm "first-name".toList = "first_name".toList ∧ demoNm "first-name".toList ≠ "first-name".toList ∧
+    ((markRequired ["first-name".toList]
+      (parseFields .v2 {} demoNm [] [("first-name".toList, .scalar .string false {})])).map
+        (fun f => (f.name, f.required))) = [("first_name".toList, true)] := by decide +kernel
+
+/-- WITNESS that the key matters: looking the collected names up by the PYTHON name (the variant
+`markRequiredByName`) leaves the renamed member optional — the statement above is false for it. -/
+theorem required_by_python_name_loses_renamed :
+    ((markRequiredByName ["first-name".toList]
+      (parseFields .v2 {} demoNm [] [("first-name".toList, .scalar .string false {})])).map
+        (fun f => (f.name, f.required))) = [("first_name".toList, false)] ∧
+    ¬ (∀ (nm : List Char → List Char) (xreq : List (List Char)) (props : List (List Char × Schema))
+        (p : List Char × Schema), p ∈ props → p.1 ∈ xreq →
+        ∃ f ∈ markRequiredByName xreq (parseFields .v2 {} nm [] props),
+          f.originalName = some p.1 ∧ f.required = true) := by
+  refine ⟨by decide +kernel, ?_⟩
+  intro h
+  obtain ⟨f, hf, ho, hr⟩ := h demoNm ["first-name".toList]
+    [("first-name".toList, .scalar .string false {})] ("first-name".toList, .scalar .string false {})
+    (by simp) (by simp)
+  simp only [markRequiredByName, parseFields, List.map_cons, List.map_nil, List.mem_singleton] at hf
+  subst hf
+  revert hr
+  decide +kernel
 
 /-- REFUTATION (D11): under `field_constraints`, `additionalProperties: {integer, minimum 0}` accepts `{"k": -1}` -/
 theorem violation_accepted_D11 : ¬ ViolationRejected := by
